@@ -12,3 +12,12 @@ pub fn vec_with_capacity<T>(_capacity: usize) -> Vec<T> {
 pub fn fmt_format(_args: core::fmt::Arguments<'_>) -> String {
     String::new()
 }
+
+/// S4: `Formatter::pad(s)` -> `write_str(s)`. Exact for `{}` without width/precision (the only
+/// way the code under test uses it); avoids char-counting loops over a symbolic-length string.
+pub fn fmt_pad<'a>(f: &mut core::fmt::Formatter<'a>, s: &str) -> core::fmt::Result
+where
+    'a: 'a,
+{
+    f.write_str(s)
+}
